@@ -24,6 +24,7 @@ type progGen struct {
 	imports map[string]bool
 	n       int
 	obs     bool // use host.Obs for reporting
+	lib     bool // a script package "lib" is on the disk
 }
 
 func (g *progGen) id(prefix string) string {
@@ -41,6 +42,8 @@ func (g *progGen) intAtom() string {
 		return core.Pick(g.r, g.insts) + ".A"
 	case k < 7 && len(g.strs) > 0:
 		return "len(" + core.Pick(g.r, g.strs) + ")"
+	case k < 9 && g.imports["lib"] && g.r.Chance(1, 3):
+		return "lib.Twice(" + fmt.Sprint(g.r.Intn(20)) + ")"
 	case k < 8 && len(g.maps) > 0:
 		return core.Pick(g.r, g.maps) + `["` + core.Pick(g.r, []string{"a", "b", "c"}) + `"]`
 	}
@@ -140,10 +143,85 @@ func (g *progGen) block(n int) string {
 	return "{ " + strings.Join(ss, "; ") + " }"
 }
 
+// scoped picks a name for a block-scoped variable: from a small pool that recurs
+// across statements, or the name of an existing global (shadowing).
+func (g *progGen) scoped() string {
+	if len(g.ints) > 0 && g.r.Chance(1, 3) {
+		return core.Pick(g.r, g.ints)
+	}
+	return core.Pick(g.r, []string{"i", "j", "k", "v", "t"})
+}
+
+func (g *progGen) target() string {
+	if len(g.vars) > 0 {
+		return core.Pick(g.r, g.vars)
+	}
+	return ""
+}
+
+// scopedStmt: block scopes (if-with-init, for, range), nested, with int, float64
+// and byte variables, whose names may shadow globals; the global is read again
+// afterwards.
+func (g *progGen) scopedStmt() string {
+	tg := g.target()
+	if tg == "" {
+		return ""
+	}
+	a, b := g.scoped(), g.scoped()
+	acc := func(x string) string { return fmt.Sprintf("%s = (%s + %s) %% 1000", tg, tg, x) }
+	if a == tg || b == tg {
+		acc = func(x string) string { return fmt.Sprintf("host.Obs(%q, %s)", g.id("s"), x) }
+	}
+	var s string
+	switch g.r.Intn(8) {
+	case 0:
+		s = fmt.Sprintf("if %s := %s; %s > 3 { %s } else { %s }", a, g.intExpr(1), a, acc(a), acc(a+" + 1"))
+	case 1:
+		s = fmt.Sprintf("if %s := %s; %s >= 0 { if %s := %s + 2; %s > 1 { %s }; %s }", a, g.intExpr(0), a, b, a, b, acc(b), acc(a))
+	case 2:
+		s = fmt.Sprintf("for %s := 0; %s < 3; %s++ { host.Obs(%q, %s, %s / 2); if %s := %s * 2; %s > 1 { %s } }", a, a, a, g.id("l"), a, a, b, a, b, acc(b))
+	case 3:
+		s = fmt.Sprintf("for _, %s := range []float64{0.5, 1.5} { host.Obs(%q, %s, %s * 2.0) }", a, g.id("f"), a, a)
+	case 4:
+		s = fmt.Sprintf("if %s := byte(200); %s > 100 { host.Obs(%q, %s, %s + 100) }", a, a, g.id("b"), a, a)
+	case 5:
+		s = fmt.Sprintf("for %s := 0.5; %s < 2.0; %s += 1.0 { host.Obs(%q, %s) }", a, a, a, g.id("q"), a)
+	case 6:
+		s = fmt.Sprintf("for %s := 0; %s < 2; %s++ { for %s := 0; %s < 2; %s++ { %s } }", a, a, a, b, b, b, acc(a+" * 2 + "+b))
+	default:
+		s = fmt.Sprintf("switch %s := %s; %s %% 2 { case 0: %s; default: %s }", a, g.intExpr(1), a, acc(a), acc(a+" + 7"))
+	}
+	return s + "; host.Obs(" + fmt.Sprintf("%q", g.id("g")) + ", " + tg + ")"
+}
+
 // stmt returns one top-level statement (one line).
 func (g *progGen) stmt() string {
 	for {
-		switch g.r.Intn(22) {
+		switch g.r.Intn(27) {
+		case 22, 23, 24:
+			if !g.obs {
+				continue
+			}
+			if s := g.scopedStmt(); s != "" {
+				return s
+			}
+			continue
+		case 25:
+			// a global whose name is also used for block-scoped variables
+			n := core.Pick(g.r, []string{"i", "j", "k", "v", "t"})
+			if g.imports["#"+n] {
+				continue
+			}
+			g.imports["#"+n] = true
+			g.ints = append(g.ints, n)
+			g.vars = append(g.vars, n)
+			return fmt.Sprintf("var %s int", n)
+		case 26:
+			if !g.lib || g.imports["lib"] {
+				continue
+			}
+			g.imports["lib"] = true
+			return `import "lib"`
 		case 0:
 			pk := core.Pick(g.r, []string{"fmt", "strconv", "strings", "math"})
 			if g.imports[pk] {
@@ -287,7 +365,7 @@ func (g *progGen) final() string {
 
 // GenStatements returns n top-level statements plus a final expression.
 func GenStatements(r *core.PRNG, n int, obs bool) []string {
-	g := &progGen{r: r, imports: map[string]bool{}, obs: obs}
+	g := &progGen{r: r, imports: map[string]bool{}, obs: obs, lib: obs}
 	var out []string
 	if obs {
 		out = append(out, `import "host"`)
